@@ -161,8 +161,24 @@ func FuncName(fn *ssa.Function) string {
 	return s
 }
 
-// FuncByName finds a package-level function or method "T.m" / "f".
+// FuncByName finds a package-level function or method "T.m" / "f" by name; a private function that is not
+// found under that name (renamed) is looked up by shape (finders.go).
 func (p *Prog) FuncByName(name string) *ssa.Function {
+	if f := p.funcByExactName(name); f != nil {
+		return f
+	}
+	if p.A == nil {
+		return nil
+	}
+	if fd, ok := finders[name]; ok {
+		if f := fd(p); f != nil {
+			return f
+		}
+	}
+	return typeMethodFinder(p, name)
+}
+
+func (p *Prog) funcByExactName(name string) *ssa.Function {
 	if i := strings.Index(name, "."); i >= 0 {
 		tn, mn := name[:i], name[i+1:]
 		obj := p.Types.Scope().Lookup(tn)
